@@ -32,7 +32,7 @@ class TaskSpec:
         self.note = note
 
 
-class TaskTimeout(Exception):
+class TaskTimeout(BaseException):
     pass
 
 
